@@ -170,9 +170,30 @@ theorem layout_share (t n : Nat) (ht : 1 ≤ t) (hn : 1 ≤ n) :
   refine ⟨?_, ?_, ?_, ?_, ?_⟩
   all_goals first | trivial | omega
 
+/-- belsValM / belsGenM0 / belsGenMi / belsGenMid (n = W_OF_O(len) ≤ hw = W_OF_O(32)): `f0` [n + 1] incl.
+    `f0[n] = 1`; `f` [n + 1] (ppMinPolyMod output, aliasing `u` in belsGenMi); in belsGenMid the hash
+    [hw words], `u[n] = 0`, the (n + 1)-word operand of ppMinPolyMod and `zzAddW2(u, n, 1)` stay inside
+    `u` [hw + 1]; the stack starts where the words reserved in `blobCreate` end -/
+theorem layout_keys (n hw : Nat) (hn : n ≤ hw) :
+    (valMLayout n).stack = n + 1 ∧
+    (let L := genMiLayout n
+     Within L.f0 (n + 1) L.f0 L.f ∧ Within L.f (n + 1) L.f L.stack ∧ L.stack = 2 * n + 2) ∧
+    (let L := genMidLayout n hw
+     Within L.f0 (n + 1) L.f0 L.f ∧ Within L.f (n + 1) L.f L.u ∧ Within L.u hw L.u L.stack ∧
+     Within (L.u + n) 1 L.u L.stack ∧ Within L.u (n + 1) L.u L.stack ∧ Within L.u n L.u L.stack ∧
+     L.stack = 2 * n + 2 + hw + 1) := by
+  dsimp only [valMLayout, genMiLayout, genMidLayout, Within]
+  refine ⟨rfl, ⟨?_, ?_, ?_⟩, ?_, ?_, ?_, ?_, ?_, ?_, ?_⟩
+  all_goals omega
+
+example : (genMidLayout 2 4).stack = 11 ∧ (genMidLayout 8 8).stack = 27 := by decide
+
 /-! ## (iv) generated user keys -/
 
-/- FULL STATEMENT (not proved):
+/- (PropsKeys.lean now proves the full statement — `genMid_valid`, `genMi_valid`, `genM0_valid`,
+   `belsValM_iff_irreducible` — on top of C05's theorems; the text below describes what THIS file
+   proves without them, i.e. without any hypothesis on m0.)
+   FULL STATEMENT (proved in PropsKeys.lean):
      belsValM len m0 = ERR_OK → belsGenMid len m0 id = (ERR_OK, some m) → PIrred (keyPoly 8 len m)
    (and the same for belsGenMi).  Missing: (a) correctness of the Ben-Or test ppIsIrred
    (belsValM = OK ⇒ x^l + m0 irreducible), (b) correctness of the Berlekamp–Massey-via-Euclid
